@@ -143,6 +143,7 @@ KF_CloseBehindBlockedReceiver ==
 T_HungLogoutWait ==
     /\ IsEvent("Hung") /\ E.id \in DOMAIN calls /\ calls[E.id].call \in {"close", "connclose"}
     /\ LogoutRunning /\ (recvd = sent \/ stolen)     \* stolen: a receiver got a package while the logout was waiting for its answer
+    /\ E.waited < 61000                             \* ... which it does for a minute at most: Close returns in bounded time
     /\ closeHung' = TRUE /\ Done(E.id) /\ UNCHANGED <<K, sent, cancelled, closeStarted, closeDone, connClosed, chan, got, stolen>>
 T_End == IsEvent("End") /\ (\A i \in DOMAIN calls : calls[i].st = "done")
          /\ UNCHANGED <<K, sent, calls, cancelled, closeStarted, closeDone, connClosed, closeHung, chan, got, stolen>>
